@@ -21,6 +21,34 @@ CLAIMED = {
         note=TRUST + "Assumes SHA-256 collision resistance for 'different structures get different roots'; the hash "
              "recipe inside Cmr::v is checked under C03.",
         design="3/C09"),
+    "C11": dict(
+        technique="call-graph + provenance analysis of the comparison trait impls (which view of the data they consume)",
+        text="Decides that Value's ==, Ord and Hash (and Word's derived ones, and Final's) consume only the canonical "
+             "type-directed compact view of a value after its type, the same view in all three, and never the raw bytes "
+             "of the shared buffer or the buffer/offset fields: a necessary condition of representation-independent "
+             "equality that is exact because the impls are three small functions. Found the genuine defect F-EQ (repaired).",
+        note=TRUST + "Assumes CompactBitsIter yields exactly the information bits of a value of its type (bit-level "
+             "correctness of Value is C10, not decided).",
+        design="3/C11"),
+    "C12": dict(
+        technique="typestate rule over trait-impl producers: provenance of returned values + dominance of type tests; who-may-call",
+        text="Decides, for every producer of a witness value for a Redeem node (all Converter<_,Redeem>::convert_witness impls, "
+             "found by trait-impl query), that each Ok path returns a value built by a type-directed source applied to the "
+             "node's finalised target type or an incoming value dominated by a successful is_of_type test; that RedeemData::new "
+             "is only reachable from those converters; and that expect/unwrap behind a type test is unreachable. "
+             "Reports the genuine defect F-WIT (known finding: its repair breaks an existing test that relies on it).",
+        note=TRUST + "SimpleFinalizer is excluded by the property's wording. Assumes Value::from_compact_bits/zero/prune return "
+             "values of the type they are given (C10).",
+        design="3/C12"),
+    "C16": dict(
+        technique="call-graph parametricity check + in-place-mutation provenance rule on MIR",
+        text="Decides the root-equality sentence by parametricity: cmr(), commit() and satisfy() build the program through the "
+             "same node-type-generic fragments (each Policy arm calls the fragment of the same name, children in order; fragments "
+             "use their node type only through the Constructible traits), instantiated at CMR algebras that agree constructor by "
+             "constructor (C09 premises re-evaluated), and conversion/pruning copy roots. Decides that sort() recurses in place "
+             "into every composite child and then orders (found and repaired F-SORT). Satisfaction logic and execution are not decided.",
+        note=TRUST + "Parametricity is used as a meta-theorem; satisfiability (and/or/threshold selection) is runtime behaviour.",
+        design="3/C16"),
 }
 
 NOT_APPLICABLE = {
